@@ -592,7 +592,7 @@ def _run(ctx, batch):
                 reqs.append(bytes([sid, sf]))
                 reqs.append(bytes([sid, sf | 0x80]))
                 reqs.append(bytes([sid, sf, 0x00]))
-        reqs += [bytes.fromhex(x) for x in ("22f186", "22f18600", "22f186f190", "22f190", "3e00", "3e80", "3e0000",
+        reqs += [bytes.fromhex(x) for x in ("22f186", "22f18600", "22f186f190", "22f190f186", "22f190", "3e00", "3e80", "3e0000",
                                              "1001", "1081", "100100", "110100", "31010000", "3181ffff", "14ffffff",
                                              "190201", "19820f", "2ef19001")]
         reqs += structured_requests(real, rng, pre, 40)
